@@ -35,6 +35,7 @@ type Engine struct {
 	inlineStack []*ssa.Function
 	inlineExternal map[string]bool
 	privCache      map[*ssa.Function]*privInfo
+	effectReports  []*effectReport
 	needStrEq bool
 	allFuncs  map[*ssa.Function]bool
 	sigIndex  map[string][]*ssa.Function
